@@ -40,6 +40,7 @@ var c09Offences = []string{
 	"handler-panic", "window-update-0", "window-update-overflow",
 	"inflight-data", "inflight-trailers", "inflight-trailers-continuation", "inflight-window-update",
 	"refused-after-malformed-with-size-update", "inflight-trailers-with-size-update",
+	"window-update-0-handler-running", "window-update-overflow-handler-running",
 }
 
 // ins are the fields whose insertion into the dynamic table the victims rely on.
@@ -221,6 +222,18 @@ func (x *c09Run) offender(cs c09Case) (tr []tframe, after func()) {
 		tr = append(block(good(), false), tframe{f: func() []peer.Frame { return []peer.Frame{peer.WindowUpdate(id, 0)} }}, data("late", true))
 	case "window-update-overflow":
 		tr = append(block(good(), false), tframe{f: func() []peer.Frame { return []peer.Frame{peer.WindowUpdate(id, 1<<31-1)} }}, data("late", true))
+	case "window-update-0-handler-running", "window-update-overflow-handler-running":
+		// the request is complete and its handler runs when the peer commits a stream-level flow-control error;
+		// what the peer had in flight for the stream arrives after the server's RST_STREAM and before the handler returns
+		inc := uint32(0)
+		if cs.Offence == "window-update-overflow-handler-running" {
+			inc = 1<<31 - 1
+		}
+		tr = append(block(good(), true),
+			tframe{f: func() []peer.Frame { return []peer.Frame{peer.WindowUpdate(id, inc)} }},
+			tframe{f: func() []peer.Frame { return []peer.Frame{peer.WindowUpdate(id, 10)} }},
+			tframe{f: func() []peer.Frame { return []peer.Frame{peer.Priority(id, 0, false, 5)} }},
+			tframe{f: func() []peer.Frame { return []peer.Frame{peer.RstStream(id, 8)} }})
 	case "inflight-data":
 		tr = append(block(with(0, ref.Field{Name: "X-Upper", Value: "v"}), false), data("a", false), data("b", false), data("c", true))
 	case "inflight-trailers", "inflight-trailers-continuation":
